@@ -889,6 +889,9 @@ class PolyhedralTermList(TermList):  # noqa: WPS338
         elif res["status"] == 0:
             fun_val: float = res["fun"]
             return polarity * fun_val
+        elif res["status"] == 2 and not self.is_empty():
+            # the solver may report a feasible problem with an unbounded objective as infeasible
+            return None
         raise ValueError("Constraints are unfeasible")
 
     @staticmethod
